@@ -1503,11 +1503,105 @@ def r03_9(ctx, counts) -> RuleResult:
     return res
 
 
+# --------------------------------------------------------------------------------------------
+# R03.10 index bounded by `<= len(x)` and then used as a subscript of x
+# --------------------------------------------------------------------------------------------
+def r03_10(ctx, counts) -> RuleResult:
+    model: Model = ctx.model
+    res = RuleResult(
+        'R03.10', 'INDEX-BOUND-OFF-BY-ONE',
+        'Contradiction rule: where the only established upper bound of an index i is '
+        '`i <= len(s)` (a dominating branch fact, or an earlier operand of the same `and` chain) '
+        'the subscript `s[i]` raises IndexError for i == len(s). Scope: the parser/token/context '
+        'layers. A subscript inside a try that catches IndexError is accepted.')
+    n = 0
+    for f in sorted(model.all_functions(), key=lambda q: q.key):
+        if not in_scope(f):
+            continue
+        subs = [x for x in walk_local(f.node) if isinstance(x, ast.Subscript)
+                and isinstance(x.ctx, ast.Load) and isinstance(x.slice, ast.Name)
+                and isinstance(x.value, (ast.Name, ast.Attribute))]
+        if not subs:
+            continue
+        cfg = None
+        facts = None
+        emap = enclosing_map(f.node)
+        parents: dict[int, ast.AST] = {}
+        for a in ast.walk(f.node):
+            for c in ast.iter_child_nodes(a):
+                parents[id(c)] = a
+        for x in subs:
+            idx, seq = x.slice.id, stmt_text(x.value)                 # type: ignore[attr-defined]
+            weak = {f'{idx} <= len({seq})', f'len({seq}) >= {idx}'}
+            strong = {f'{idx} < len({seq})', f'len({seq}) > {idx}'}
+            found_weak = found_strong = False
+            # earlier operands of an enclosing `and`
+            cur: ast.AST = x
+            while id(cur) in parents:
+                par = parents[id(cur)]
+                if isinstance(par, ast.BoolOp) and isinstance(par.op, ast.And):
+                    for v in par.values:
+                        if v is cur or any(y is cur for y in ast.walk(v)):
+                            break
+                        for y in ast.walk(v):
+                            if isinstance(y, ast.Compare):
+                                parts = [stmt_text(y.left)] + [stmt_text(c_) for c_ in y.comparators]
+                                for i_, op in enumerate(y.ops):
+                                    t = f'{parts[i_]} {{}} {parts[i_ + 1]}'
+                                    if isinstance(op, ast.LtE) and t.format('<=') in weak:
+                                        found_weak = True
+                                    if isinstance(op, ast.GtE) and t.format('>=') in weak:
+                                        found_weak = True
+                                    if isinstance(op, ast.Lt) and t.format('<') in strong:
+                                        found_strong = True
+                                    if isinstance(op, ast.Gt) and t.format('>') in strong:
+                                        found_strong = True
+                cur = par
+                if isinstance(par, ast.stmt):
+                    break
+            if not (found_weak or found_strong):
+                if cfg is None:
+                    cfg = CFG(f.node)
+                    facts = branch_facts(cfg)
+                for nd in cfg.nodes:
+                    if nd.ast is None or nd.kind not in ('stmt', 'test'):
+                        continue
+                    root = nd.ast.test if isinstance(nd.ast, (ast.If, ast.While)) else nd.ast
+                    if any(y is x for y in ast.walk(root)):
+                        fs = facts[nd.id]
+                        if any('+' + w in fs for w in weak):
+                            found_weak = True
+                        if any('+' + st_ in fs for st_ in strong) or \
+                                any('-' + w.replace('<=', '>').replace('>=', '<') in fs for w in ()):
+                            found_strong = True
+                        break
+            if not found_weak:
+                continue
+            n += 1
+            caught = any(isinstance(enc, ast.Try) and any(
+                'IndexError' in {q.split('.')[-1] for q in handler_names(model, f.module, h)} |
+                ({'IndexError'} if {q.split('.')[-1] for q in handler_names(model, f.module, h)} &
+                 {'LookupError', 'Exception', 'BaseException'} else set())
+                for h in enc.handlers) and any(any(y is x for y in ast.walk(b)) for b in enc.body)
+                for enc in emap[id(x)])
+            res.instances.append(f'{f.key}: {stmt_text(x)} with {idx} <= len({seq}); '
+                                 f'strict bound={found_strong} IndexError handled={caught}')
+            if found_strong or caught:
+                res.ok()
+            else:
+                res.fail(finding('R03.10', f, x, f'{stmt_text(x)} after {idx} <= len',
+                                 f'`{stmt_text(x)}` is evaluated where only `{idx} <= len({seq})` '
+                                 f'is established: for {idx} == len({seq}) it raises a bare '
+                                 f'IndexError (e.g. a source text that ends right after the token)'))
+    counts['weak_index_bounds'] = n
+    return res
+
+
 def run(ctx) -> dict:
     counts: dict[str, int] = {}
     results = [r03_1(ctx, counts), r03_2(ctx, counts), r03_3(ctx, counts), r03_4(ctx, counts),
                r03_5(ctx, counts), r03_6(ctx, counts), r03_7(ctx, counts),
-               r03_8(ctx, counts), r03_9(ctx, counts)]
+               r03_8(ctx, counts), r03_9(ctx, counts), r03_10(ctx, counts)]
     # "no call hangs": the lock discipline of C19 is a necessary condition (a lock left held on
     # an error path blocks every later evaluation that needs it)
     from . import c19_global
